@@ -59,6 +59,10 @@ pub struct LookupCase {
     /// does not depend on it)
     #[serde(default)]
     pub max_nodes: u8,
+    /// the node whose id is the lookup target is one of the known peers (it is then a candidate like
+    /// any other: it must be asked, and is a result only if it answered)
+    #[serde(default)]
+    pub target_known: bool,
 }
 
 const LPOOL: u32 = 240;
@@ -297,6 +301,10 @@ async fn run_lookup(c: &LookupCase, rep: &mut CaseReport) -> Option<(String, Str
             let _ = q.d.add_enr(e);
         }
     }
+    if c.target_known {
+        let _ = q.d.add_enr(lrec(c.target as u32 + 7));
+        rep.class("lookup/target-is-a-known-peer");
+    }
     let mut n_req = 0usize;
     let mut held: Vec<Held> = Vec::new();
     let first = match drive(&mut q, c, target, &mut n_req, &mut held, vec![], "first").await {
@@ -357,8 +365,9 @@ fn lookup_strategy() -> BoxedStrategy<LookupCase> {
         prop_oneof![1 => Just(0u8), 3 => 1u8..5],
         proptest::option::weighted(0.5, any::<u16>()),
         prop_oneof![3 => Just(0u8), 2 => Just(1u8), 1 => Just(2u8), 1 => Just(3u8), 1 => Just(4u8)],
+        prop_oneof![3 => Just(false), 1 => Just(true)],
     )
-        .prop_map(|(target, known, script, predicate, num, second, max_nodes)| LookupCase { target, known, script, predicate, num, second, max_nodes })
+        .prop_map(|(target, known, script, predicate, num, second, max_nodes, target_known)| LookupCase { target, known, script, predicate, num, second, max_nodes, target_known })
         .boxed()
 }
 
@@ -405,7 +414,7 @@ impl Property for C10 {
         rep
     }
     fn rule() -> String {
-        "the C09 machine histories (real FindNodeQuery / PredicateQuery, explicit clock, drain at the end); at the end into_result() is checked: R1 <= num_results ids, pairwise distinct, strictly increasing XOR distance (harness arithmetic); R2 every id was handed out by next() and a success was delivered for it while it was outstanding and before the finish; R3 (predicate variant) every id was reported (initial list or accepted success) with a value satisfying the predicate; R4 if fewer than num_results ids are returned every candidate (first num_results initial ids + ids inside accepted successes) was contacted. One case in 14 is a whole lookup through the public API (Discv5::find_node / find_node_predicate on a real service behind a scripted handler): 1..5 known peers, a pool of 240 signed records, every FINDNODE the lookup emits is answered per script with 0..4 records at the requested distances (sorted towards the target, farthest first, split over two packets, empty) or failed; requests may also be left without an outcome for the time being; the Vec<Enr> the caller gets back is checked for <= k distinct nodes in strictly increasing distance, every node having answered, predicate satisfied, and completeness when short (predicate lookups ask for 1..4 or 16 results, so the table may hold more entries than the lookup starts from); at no time more than max(parallelism = 3, k) FINDNODEs of a lookup are in flight; the service's max_nodes_response is the default or 4 / 8 / 24 / 64 (no answer is truncated by it; k stays 16); in half of the cases a second lookup runs on the same service afterwards, and the requests of the first lookup that were left open are answered while the second one is waiting. Non-trivial = result shorter than num_results with >=1 failure and >=1 result, or exactly num_results results out of more successes; (lookup) >= 2 results and a node closer to the target was learnt after a farther one.".into()
+        "the C09 machine histories (real FindNodeQuery / PredicateQuery, explicit clock, drain at the end); at the end into_result() is checked: R1 <= num_results ids, pairwise distinct, strictly increasing XOR distance (harness arithmetic); R2 every id was handed out by next() and a success was delivered for it while it was outstanding and before the finish; R3 (predicate variant) every id was reported (initial list or accepted success) with a value satisfying the predicate; R4 if fewer than num_results ids are returned every candidate (first num_results initial ids + ids inside accepted successes) was contacted. One case in 14 is a whole lookup through the public API (Discv5::find_node / find_node_predicate on a real service behind a scripted handler): 1..10 known peers (in a quarter of the cases the node whose id is the target is one of them), a pool of 240 signed records, every FINDNODE the lookup emits is answered per script with 0..4 records at the requested distances (sorted towards the target, farthest first, split over two packets, empty) or failed; requests may also be left without an outcome for the time being; the Vec<Enr> the caller gets back is checked for <= k distinct nodes in strictly increasing distance, every node having answered, predicate satisfied, and completeness when short (predicate lookups ask for 1..4 or 16 results, so the table may hold more entries than the lookup starts from); at no time more than max(parallelism = 3, k) FINDNODEs of a lookup are in flight; the service's max_nodes_response is the default or 4 / 8 / 24 / 64 (no answer is truncated by it; k stays 16); in half of the cases a second lookup runs on the same service afterwards, and the requests of the first lookup that were left open are answered while the second one is waiting. Non-trivial = result shorter than num_results with >=1 failure and >=1 result, or exactly num_results results out of more successes; (lookup) >= 2 results and a node closer to the target was learnt after a farther one.".into()
     }
     fn assumptions() -> Vec<String> {
         vec![
